@@ -1,6 +1,7 @@
 """Registry: which contracts, lemmas and bounded stand-ins decide which property."""
 
 PM = "frequenz.sdk.microgrid._power_managing"
+FS = "frequenz.sdk.timeseries.formula_engine._formula_steps"
 
 REALS = "assume:python floats are treated as mathematical reals (rounding, NaN and overflow are not modelled)"
 EXTRACTION = ("extraction: the verified text is the function's AST re-read from /repo on every run; dropped: "
@@ -78,5 +79,18 @@ PROPS = {
         assumptions=[REALS, EXTRACTION,
                      "history quantifier: carried by the class invariant 'a stored target has a bucket' (required, and "
                      "proved preserved) - every event handler funnels into _calculate_target_power"],
+    ),
+    "C13": dict(
+        modules=["fe_steps"],
+        contracts=[f"{FS}:{c}.apply" for c in ("Adder", "Subtractor", "Multiplier", "Divider", "Maximizer", "Minimizer",
+                                               "Consumption", "Production", "Clipper", "ConstantValue", "MetricFetcher")],
+        lemmas=[],
+        bounded=[],
+        level="proof",
+        explanation="Every formula step's apply() is verified in IEEE-754 binary64 (z3 FloatingPoint theory, python's max/min "
+                    "and ZeroDivisionError semantics): a NaN operand in either position gives NaN, no step raises on any float "
+                    "operands, the stack effect is exact; MetricFetcher.apply pushes 0.0 / NaN / base_value as documented.",
+        assumptions=[EXTRACTION, "IEEE-754 binary64 with round-to-nearest-even as implemented by z3's FloatingPoint theory; "
+                     "python float == C double"],
     ),
 }
